@@ -9,17 +9,19 @@ SPEC = dict(
     level_text=("Partial. Proved for every queue/forcing: every prefix size of an ordered input is released by some tape; every "
                 "split of an unordered input into an in-order sub-multiset and the rest is released by some tape (the min_index "
                 "pruning loses no subset) and, on distinct items, a released batch determines the whole call sequence that produced it (each subset is visited exactly once); every combination of per-key prefixes of a keyed ordered input and of per-key sub-multisets of a keyed unordered input; every buffered "
-                "snapshot version of a singleton and the unchanged snapshot; every single release (and silence) of TopLevelStreamOrderHook and either front of TopLevelMergeOrderedHook; every non-empty subset selection of TopLevelFoldHook (released in some order); every ready tick/observation is picked by the "
+                "snapshot version of a singleton and the unchanged snapshot; every single release (and silence) of TopLevelStreamOrderHook, either front of TopLevelMergeOrderedHook, every (key, item) of TopLevelKeyedStreamOrderHook, every key front of TopLevelPartiallyOrderedStreamHook and every candidate front of TopLevelKeyedMergeOrderedHook (and their silence); every non-empty subset selection of TopLevelFoldHook (released in some order); every ready tick/observation is picked by the "
                 "scheduler's draw; a single-hook tick/observation resolves to that hook's forced decision space. "
-                "Stated but not proved (def ...Statement): run_hooks reaches every multi-hook decision vector with a non-trivial "
-                "component; completeness for KeyedSingleton, the keyed TopLevel* hooks, the fold hook's Fisher-Yates "
-                "permutation. Tie: for small queues of every hook kind the real hook is run under bolero's real exhaustive "
-                "driver until it reports the space exhausted; the set of (released, remaining) outcomes and the number of "
+                "Multi-hook ticks: the two-pass tape-framing argument of run_hooks is proved for arbitrary hook kinds (runHooks_reaches_every_framed_vector: given, per hook, a decision that is reachable by a tape prefix independent of what follows - unforced, and forced when non-trivial - every decision vector with a non-trivial component is produced by the concatenation of the per-hook prefixes, first-pass hooks first, the last undecided hook on its forced tape iff nothing non-trivial precedes it); the per-hook framing facts are proved for StreamHook and KeyedStreamHook (both orders), SingletonHook, PassthroughSingletonHook and KeyedSingletonHook (hookTarget_of_decision; for the keyed singleton via keyedSingleton_every_decision_reachable: every per-key combination of unchanged / withheld / buffered version is reached), which gives runHooks_reaches_every_vector_partial = the full statement restricted to hook lists of those kinds, i.e. every hook kind the builder puts into a tick. "
+                "Stated but not proved (def runHooksReachesEveryVectorStatement): the same for arbitrary hook lists, i.e. lists containing TopLevel* hooks (which the scheduler always resolves alone, one observation = one hook); also without theorem: the fold hook's Fisher-Yates "
+                "permutation (every order), the in-tick inline hooks. Tie: for small queues of every hook kind the real hook is run under bolero's real exhaustive "
+                "driver (exhaustive::Driver::default(), step() until Break - the loop bolero's engine runs for CompiledSim::exhaustive's .exhaustive().run_with_replay) until it reports the space exhausted; the set of (released, remaining) outcomes and the number of "
                 "executions are compared with the model's (specified sets for the proved kinds, cross-checked against a "
-                "search over the model's decision tree; that search for the others)."),
-    level_note=("Trusted: bolero's exhaustive driver (its depth-first search is exercised on the real hooks, not modelled); "
+                "depth-first search over the model's decision tree that mirrors State::step; that search for the others)."),
+    level_note=("Assumed about bolero (exercised on the real hooks, not modelled or proved): exhaustive::State::step/select perform a depth-first enumeration of "
+                "all answer sequences - each request with bound b>0 gets a frame taking every value 0..=b, a request with a single possible answer (bound 0) draws nothing, step() bumps the deepest frame with room and drops the deeper ones, Break when none has room - so that every choice tape of the model (up to the value-to-range mapping; the theorems produce tapes whose entries lie inside the requested ranges) is visited once; "
+                "the theorems say 'there is a tape', the conclusion 'exhaustive mode runs it' rests on this assumption. "
                 "FxHashMap iteration order as an input; the end-to-end CompiledSim::exhaustive loop (dylib build, tokio runtime, "
-                "quiescence forking) is not modelled and only exercised by the F36 end-to-end reproduction."),
+                "quiescence forking via decide_quiescence_branch, LaunchedSim::step's interleaving of async DFIRs and ticks) is not modelled; it is exercised only by hydro_lang's own sim tests (incl. the F36 regression test)."),
     trusted_base=["bolero exhaustive::Driver (state/step/select) exercised, not modelled",
                   "FxHashMap iteration order taken as an explicit input",
                   "CompiledSim::exhaustive / LaunchedSim::step outside run_hooks not modelled"],
